@@ -306,8 +306,16 @@ def glue_builtins() -> None:
         # block on an event loop trap is to await something),
         # and we want to treat them as suspended for
         # traceback extraction purposes.
-        if agen.ag_running and agen.ag_await is None:
-            return StackSlice(outer=agen.ag_frame)
+        if agen.ag_running:
+            # If the frame is visibly executing right now (only an executing
+            # generator frame is linked to its caller), don't even look at
+            # ag_await: on CPython 3.12.0 and 3.12.1, reading it from an
+            # executing generator can return a garbage pointer and crash.
+            frame = agen.ag_frame
+            if (frame is not None and frame.f_back is not None) or (
+                agen.ag_await is None
+            ):
+                return StackSlice(outer=frame)
         return (agen.ag_frame, agen.ag_await)
 
     async def some_asyncgen() -> AsyncGenerator[None, None]:
